@@ -317,6 +317,118 @@ pub fn convergence_program(rng: &mut Rng) -> Vec<u8> {
     s.into_bytes()
 }
 
+/// A branch-relaxation program whose `asm` blocks share names with the global
+/// scope: one block *declares* a label that another block (and the program)
+/// knows as a global, and a jump sits on the short/long boundary, so the very
+/// first guess of an iteration can decide the bytes. Whatever survives of one
+/// assembly's block-local tables into the next shows here (with
+/// `--debug-iters` even when the bytes agree).
+pub fn asm_shadow_program(rng: &mut Rng) -> Vec<u8> {
+    let names = ["mid", "la", "first", "val", "x", "loop"];
+    let n1 = names[rng.below(names.len())];
+    let n2 = names[rng.below(names.len())];
+    let mut s = String::from("#ruledef\n{\n");
+    s.push_str("    jmp {a} => { assert(a <  0x80), 0x10 @ a`8  }\n    jmp {a} => { assert(a >= 0x80), 0x11 @ a`16 }\n");
+    s.push_str("    ldi {a} => { assert(a >= 0x80), 0x20 }\n    ldi {a} => { assert(a <  0x80), 0x21 @ a`8 @ 0x00 }\n");
+    s.push_str(&format!("    usegl => asm {{ ldi {} }}\n", n1));
+    s.push_str(&format!("    usegl2 => asm {{\n        ldi {}\n        jmp {}\n    }}\n", n2, n1));
+    s.push_str(&format!("    decl => asm\n    {{\n        {}:\n        jmp {}\n    }}\n", n1, n1));
+    if n2 != n1 {
+        s.push_str(&format!("    decl2 => asm\n    {{\n        ldi {}\n        {}:\n        {}:\n        jmp {}\n    }}\n", n1, n2, n1, n2));
+    }
+    s.push_str("}\n\n");
+    if rng.chance(1, 2) {
+        s.push_str("    jmp end\n");
+    }
+    s.push_str(&format!("{}:\n", n1));
+    s.push_str(if rng.chance(2, 3) { "    usegl\n" } else { "    usegl2\n" });
+    if n2 != n1 {
+        s.push_str(&format!("{}:\n", n2));
+        if rng.chance(1, 2) {
+            s.push_str("    usegl2\n");
+        }
+    }
+    s.push_str(&format!("    #res 0x{:x}\n", rng.range(0x70, 0x80)));
+    s.push_str("end:\n    #d8 0xff\n");
+    if rng.chance(2, 3) {
+        s.push_str(&format!("    #res 0x{:x}\n    decl\n", rng.range(1, 0x30)));
+        if n2 != n1 && rng.chance(1, 2) {
+            s.push_str("    decl2\n");
+        }
+    }
+    if rng.chance(1, 3) {
+        s.push_str("    jmp end\n");
+    }
+    s.into_bytes()
+}
+
+/// The *failing twin* of a job: the same tree, names and command line with
+/// one error injected into the root file at a seeded place and stage
+/// (syntax, matching, inside an `asm` block after its labels, last-pass
+/// resolution, `#assert`). Run right before the job on the same thread it is
+/// the history most likely to leave something behind that the job can meet:
+/// every name, handle and size agrees.
+pub fn failing_twin(rng: &mut Rng, job: &Job) -> Option<Job> {
+    let spec = job.spec.as_ref()?;
+    if spec.roots.len() != 1 {
+        return None;
+    }
+    let path = format!("{}/{}", corpus::PROJ, spec.roots[0]);
+    let text = match job.disk.nodes.get(&path) {
+        Some(crate::disk::Node::File(d)) => String::from_utf8(d.clone()).ok()?,
+        _ => return None,
+    };
+    let mut lines: Vec<String> = text.lines().map(|l| l.to_string()).collect();
+    // closing lines of asm blocks (a line holding only "}" after a line that
+    // mentions "asm"), found textually: good enough for generated programs
+    let mut asm_closers: Vec<usize> = Vec::new();
+    let mut in_asm = false;
+    for (i, l) in lines.iter().enumerate() {
+        if l.contains("asm") && !l.contains('}') {
+            in_asm = true;
+        } else if in_asm && l.trim() == "}" {
+            asm_closers.push(i);
+            in_asm = false;
+        }
+    }
+    let kind = rng.below(8);
+    let what;
+    match kind {
+        0 | 1 | 2 if !asm_closers.is_empty() => {
+            let at = asm_closers[rng.below(asm_closers.len())];
+            lines.insert(at, "        qq_no_such_instruction 1".to_string());
+            what = "asm-block";
+        }
+        3 => {
+            lines.push("qq_no_such_instruction 1".to_string());
+            what = "no-match";
+        }
+        4 => {
+            lines.push("#d8 qq_no_such_symbol".to_string());
+            what = "unknown-symbol";
+        }
+        5 => {
+            lines.push("#assert 1 == 0".to_string());
+            what = "assert";
+        }
+        6 => {
+            lines.push("#d8 (".to_string());
+            what = "syntax";
+        }
+        _ => {
+            let at = rng.below(lines.len() + 1);
+            lines.insert(at, "#d8 1 / 0".to_string());
+            what = "div-zero";
+        }
+    }
+    let mut twin = job.clone();
+    let mut t = lines.join("\n");
+    t.push('\n');
+    twin.disk.add_file(&spec.roots[0], t.into_bytes());
+    twin.name = format!("failing-twin[{}]({})", what, job.name);
+    Some(twin)
+}
+
 /// A program of several hundred instructions with a few that match no rule,
 /// far apart: whatever processes instructions in chunks (or in parallel)
 /// must still report in source order.
@@ -496,7 +608,11 @@ pub fn pool_job(seed: u64, k: usize, c: &Corpus) -> Job {
         // generated programs: many symbols / ambiguous prefixes / several
         // files with identical layout / on top of the built-in library
         let mut disk = crate::disk::Disk::new(corpus::PROJ);
-        let root = match rng.below(16) {
+        let root = match rng.below(18) {
+            16 | 17 => {
+                disk.add_file("shadow.asm", asm_shadow_program(&mut rng));
+                "shadow.asm".to_string()
+            }
             12 | 13 | 14 | 15 => {
                 disk.add_file("mix.asm", feature_mix_program(&mut rng));
                 "mix.asm".to_string()
@@ -725,6 +841,36 @@ pub fn build_plan(rng: &mut Rng, seed: u64, c: &Corpus) -> SimPlan {
         let pred = Job::from_spec("genprog:multi_rev.asm:pair", disk, pspec);
         let keys = rng.bytes16();
         return SimPlan { faults: vec![vec![], vec![]], jobs: vec![pred, job], threads: vec![ThreadPlan { keys: keys_to_hex(&keys), jobs: vec![0, 1], reuse: vec![false, true], offsets: vec![0, 0] }], schedule: vec![], sched_seed: None, switch_16: 0, clock: vec![], lib_pass: true, all_formats: true, realfs: false, env: vec![] };
+    }
+    if rng.chance(1, 10) {
+        // directed pair on one thread: a job right after its failing twin
+        // (same names, same tree, one injected error)
+        for _ in 0..8 {
+            let k = rng.below(POOL);
+            let mut job = pool_job(seed, k, c);
+            if rng.chance(1, 2) {
+                let mut disk = crate::disk::Disk::new(corpus::PROJ);
+                let (root, text) = if rng.chance(2, 3) { ("shadow.asm", asm_shadow_program(rng)) } else { ("conv.asm", convergence_program(rng)) };
+                disk.add_file(root, text);
+                let mut spec = Spec::simple(root);
+                cmdline::draw_knobs(rng, &mut spec);
+                spec.debug_iters = rng.chance(1, 2);
+                job = Job::from_spec(&format!("genprog:{}:twin", root), disk, spec);
+            }
+            if let Some(twin) = failing_twin(rng, &job) {
+                let keys = rng.bytes16();
+                let mut jobs = vec![twin, job];
+                let mut idx = vec![0usize, 1];
+                if rng.chance(1, 3) {
+                    // the job itself first as well: success, failure, success
+                    jobs.insert(0, jobs[1].clone());
+                    idx = vec![0, 1, 2];
+                }
+                let n = jobs.len();
+                let reuse: Vec<bool> = (0..n).map(|i| i > 0 && rng.chance(1, 2)).collect();
+                return SimPlan { faults: vec![vec![]; n], jobs, threads: vec![ThreadPlan { keys: keys_to_hex(&keys), jobs: idx, reuse, offsets: vec![0; n] }], schedule: vec![], sched_seed: None, switch_16: 0, clock: vec![], lib_pass: true, all_formats: true, realfs: false, env: vec![] };
+            }
+        }
     }
     // now and then a long history on one thread (state that only builds up
     // over dozens of assemblies, e.g. a counter leaked on error paths)
